@@ -548,9 +548,7 @@ def stream_hypotheses(X):
 def stream_h3_processes(X):
     """H3 across processes: same value, different PYTHONHASHSEED -> same bytes?  (exploration: sets are known to differ)"""
     c = X.c
-    code = ('import sys, pickle, treelog\nfrom nvh import c18\nfor kind in c18.KINDS:\n'
-            '  rl = treelog.RecordLog()\n  with treelog.set(rl): c18.emit_logs(kind, 1)\n'
-            '  print(kind, pickle.dumps((c18.payload(kind, 1), rl)).hex())\n')
+    code = 'from nvh import c18\nc18._print_encodings()\n'
     outs = []
     ps = [subprocess.Popen([sys.executable, '-c', code], env=dict(os.environ, PYTHONHASHSEED=hs), stdout=subprocess.PIPE, stderr=subprocess.PIPE, text=True) for hs in ('1', '2')]
     for p in ps:
@@ -561,6 +559,8 @@ def stream_h3_processes(X):
         if p.returncode != 0:
             raise Infra('H3 subprocess failed: ' + se[-500:])
         outs.append(dict(l.split() for l in so.splitlines()))
+    X.rec_encodings = (bytes.fromhex(outs[0]['rec!alone']), bytes.fromhex(outs[0]['rec!equal-object-alive']))
+    X.encodings = {seed: (bytes.fromhex(outs[0]['topo!%d!alone' % seed]), bytes.fromhex(outs[0]['topo!%d!equal-object-alive' % seed])) for seed in (0, 1)}
     differ = [k for k in KINDS if outs[0][k] != outs[1][k]]
     for k in KINDS:
         c.count('H3:across-processes:' + ('differs' if k in differ else 'same'))
@@ -702,16 +702,26 @@ def stream_two_crashes(X):
     kind, seed = 'topo', c.rng.randrange(2)
     rl = treelog.RecordLog()
     with treelog.set(rl): emit_logs(kind, seed)
-    gc.collect()
-    fresh = payload(kind, seed); D1 = pickle.dumps((fresh, rl)); del fresh; gc.collect()
-    keep = payload(kind, seed); other = payload(kind, seed); D2 = pickle.dumps((other, rl)); del keep, other; gc.collect()
     ref = X.reference(kind, seed)
     if ref['D'] is None or ref['spec'][0] != 'ret':
         return
+    if getattr(X, 'encodings', None):
+        D1, D2 = X.encodings[seed]     # produced by fresh interpreters (stream_h3_processes): independent of what is alive in this process
+    else:
+        gc.collect()
+        fresh = payload(kind, seed); D1 = pickle.dumps((fresh, rl)); del fresh; gc.collect()
+        keep = payload(kind, seed); other = payload(kind, seed); D2 = pickle.dumps((other, rl)); del keep, other; gc.collect()
     c.count('two-crashes:encodings-' + ('differ' if D1 != D2 else 'equal'))
-    if D1 == D2 or ref['D'] not in (D1, D2):
-        c.obligation('oracle:two-crashes', True, 'exploration', 'the two encodings could not be produced in this process (%d, %d, reference %d bytes)' % (len(D1), len(D2), len(ref['D'])))
-        return
+    # both must be entries the real decorator accepts as complete (value and log right, no execution)
+    d = X.newdir()
+    for D in (D1, D2):
+        write(os.path.join(d, ref['files'][0]), D)
+        out, n, log, trace = real_call(d, kind, seed)
+        if out != ref['spec'] or log != ref['slog'] or n != 0:
+            c.obligation('oracle:two-crashes', True, 'exploration', 'an encoding produced outside the decorator is not accepted as the entry (n=%d)' % n); X.drop(d); return
+    X.drop(d)
+    if D1 == D2:
+        c.obligation('oracle:two-crashes', True, 'exploration', 'both writers dump the same %d bytes' % len(D1)); return
     d = X.newdir()
     path = os.path.join(d, ref['files'][0])
     nscan = 120 if c.tier == 'quick' else 1200
@@ -751,6 +761,48 @@ def stream_two_crashes(X):
                         'after two killed writers whose pickles of the same result differ (a topology pickles %d or %d bytes depending on whether an equal topology is alive in the process) '
                         'the entry `new[:%d] + old[%d:%d]` makes every later call %s instead of recomputing (cache.function neither truncates nor catches this exception)'
                         % (len(D1), len(D2), k, k, m, r), dict(stream='two-crashes', payload=kind, pseed=seed, direction=tag, k=k, m=m, outcome=r, message=msg, examples=bad, sizes=[len(D1), len(D2)]))
+
+    # ---- the same for an item file of a topology-valued Recursion
+    if not getattr(X, 'rec_encodings', None) or X.rec_encodings[0] == X.rec_encodings[1]:
+        c.obligation('oracle:two-crashes:recursion', True, 'exploration', 'no two encodings of the item file available'); return
+    R1, R2 = X.rec_encodings
+    obj = RecT0(TOPO_REC_SPEC, 'two-crashes')
+    specrun = real_iter(None, obj, 4, enabled=False)
+    d = X.newdir()
+    real_iter(d, obj, 4)
+    subs, files, names = rec_files(d, 3)
+    path0 = os.path.join(d, subs[0], '0000')
+    rpairs = []
+    for new, old_, tag in ((R1, R2, 'short-over-long'), (R2, R1, 'long-over-short')):
+        for m in (len(old_) - 25, len(old_) - 1):
+            lo = next(i for i, (x, y) in enumerate(zip(new, old_)) if x != y)
+            ks = sorted(set(k for k in list(range(max(1, lo - 5), min(m, lo + nscan))) + [c.rng.randrange(1, m) for _ in range(nscan // 4)] if 0 < k < m))
+            rpairs += [(tag, k, m, new[:k] + old_[k:m]) for k in ks]
+
+    def explore_rec():
+        stats = collections.Counter(); bad = []
+        t_end = time.time() + budget
+        for tag, k, m, data in rpairs:
+            if time.time() > t_end: stats['budget-cut'] += 1; break
+            write(path0, data)
+            r = real_iter(d, obj, 4)
+            res = 'right' if (r['items'], r['fin']) == (specrun['items'], specrun['fin']) else 'WRONG-SEQUENCE' if r['fin'] == specrun['fin'] else r['fin'][:40]
+            stats[tag + ':' + res] += 1
+            if res != 'right' and len(bad) < 5: bad.append((tag, k, m, res))
+        return dict(stats), bad
+    res = guarded(explore_rec, seconds=budget + 60)
+    X.drop(d)
+    if not (isinstance(res, tuple) and isinstance(res[0], dict)):
+        c.obligation('oracle:two-crashes:recursion', True, 'exploration', 'guarded child failed: %s' % (res,)); return
+    stats, bad = res
+    for s_, n in stats.items(): c.count('two-crashes:recursion:' + s_, n)
+    c.case(('two-crashes-recursion',), nontrivial=True)
+    c.obligation('oracle:two-crashes:recursion', not bad, 'correspondence', dict(stats))
+    if bad:
+        tag, k, m, r = bad[0]
+        c.failing_input('two-killed-writers:recursion-item-poisoned-by-uncaught-unpickling-exception',
+                        'after two killed writers whose pickles of the same item differ (%d / %d bytes) item file 0000 = `new[:%d] + old[%d:%d]` makes every later iteration end with %r instead of recomputing'
+                        % (len(R1), len(R2), k, k, m, r), dict(stream='two-crashes-recursion', direction=tag, k=k, m=m, outcome=r, examples=bad))
 
 
 # =============================================================================================== stream F: function histories vs model
@@ -998,6 +1050,7 @@ def _item_value(spec, hist, i):
     if valkind == 'tuple' or valkind == 'tuple-noindex': return (i, x)
     if valkind == 'array': return numpy.array([i, x], dtype=float)
     if valkind == 'none' and i % 3 == 2: return None
+    if valkind == 'topo': return payload('topo', i % 2)
     return x
 
 
@@ -1055,7 +1108,33 @@ class RecA2(_RecIndexed, cache.Recursion, length=2): pass
 class RecA3(_RecIndexed, cache.Recursion, length=3): pass
 class RecB1(_RecPlain, cache.Recursion, length=1): pass
 class RecB2(_RecPlain, cache.Recursion, length=2): pass
+class RecT0(_RecIndexed, cache.Recursion, length=0): pass   # topology-valued items (stream_two_crashes)
 RECS = [RecA0, RecA1, RecA2, RecA3, RecB1, RecB2]
+
+
+TOPO_REC_SPEC = (2, 'stop', 'topo', 1, 0)
+
+
+def _print_encodings():
+    """run in a fresh interpreter (stream_h3_processes): the bytes fresh writers dump, incl. the two encodings of
+    topology-valued entries (alone / while an equal topology object is alive in the process)"""
+    import gc, tempfile
+    for kind in KINDS:
+        rl = treelog.RecordLog()
+        with treelog.set(rl): emit_logs(kind, 1)
+        print(kind, pickle.dumps((payload(kind, 1), rl)).hex())
+    for seed in (0, 1):
+        rl = treelog.RecordLog()
+        with treelog.set(rl): emit_logs('topo', seed)
+        gc.collect(); a = payload('topo', seed); print('topo!%d!alone' % seed, pickle.dumps((a, rl)).hex()); del a; gc.collect()
+        keep = payload('topo', seed); b = payload('topo', seed); print('topo!%d!equal-object-alive' % seed, pickle.dumps((b, rl)).hex()); del keep, b; gc.collect()
+    # item file 0 of a topology-valued Recursion, written by the real code
+    for tag in ('alone', 'equal-object-alive'):
+        keep = payload('topo', 0) if tag != 'alone' else None
+        with tempfile.TemporaryDirectory() as d:
+            real_iter(d, RecT0(TOPO_REC_SPEC, 'enc'), 1)
+            print('rec!%s' % tag, rec_files(d, 1)[1][0].hex())
+        del keep; gc.collect()
 
 
 def real_iter(cachedir, obj, n, fault=None, killpickle=None, enabled=True, logger=None):
